@@ -290,33 +290,10 @@ impl<'ast> Loader<'ast> {
                 _ if v.as_bytes().iter().any(u8::is_ascii_digit) => {
                     use malachite::base::num::conversion::traits::FromSciString;
                     let n = Number::from_sci_string(v);
-                    // The YAML emitter (serde_yaml) quotes a string only if its own resolution
-                    // makes it a number, and it resolves floats through `f64`: a string such as
-                    // "1e400", which overflows `f64`, is written as a plain scalar. Numbers of
-                    // that magnitude can't be exported anyway (see `serialize::validate`), so in
-                    // YAML we read them back as what they were written from: a string. JSON
-                    // number tokens are always numbers.
-                    if fmt == "yaml" && n.as_ref().is_some_and(|n| !fits_f64(n)) {
-                        return Ok(None);
-                    }
                     Ok(n.map(|n| alloc.number(n)))
                 }
                 _ => Ok(None),
             }
-        }
-
-        // Is the magnitude of this number at most `f64::MAX`?
-        fn fits_f64(n: &Number) -> bool {
-            use std::sync::LazyLock;
-            static MAX: LazyLock<Number> = LazyLock::new(|| Number::try_from(f64::MAX).unwrap());
-            static MIN: LazyLock<Number> = LazyLock::new(|| Number::try_from(f64::MIN).unwrap());
-            *n >= *MIN && *n <= *MAX
-        }
-
-        // `i64::from_str_radix` and `str::parse::<i64>` accept a leading sign: "0x-5" or "++5"
-        // aren't YAML integers (and the YAML emitter writes such strings unquoted).
-        fn unsigned(digits: &str) -> bool {
-            !digits.starts_with(['+', '-'])
         }
 
         // Parse a YAML scalar, inferring the type from the value itself.
@@ -327,17 +304,14 @@ impl<'ast> Loader<'ast> {
             alloc: &'a AstAlloc,
         ) -> Result<ast::Node<'a>, ParseError> {
             if let Some(number) = v.strip_prefix("0x")
-                && unsigned(number)
                 && let Ok(i) = i64::from_str_radix(number, 16)
             {
                 return Ok(alloc.number(i.into()));
             } else if let Some(number) = v.strip_prefix("0o")
-                && unsigned(number)
                 && let Ok(i) = i64::from_str_radix(number, 8)
             {
                 return Ok(alloc.number(i.into()));
             } else if let Some(number) = v.strip_prefix('+')
-                && unsigned(number)
                 && let Ok(i) = number.parse::<i64>()
             {
                 return Ok(alloc.number(i.into()));
